@@ -202,6 +202,20 @@ CLAIMED.update({
   ref="DESIGN.md 4/C14, 9"),
 })
 
+CLAIMED.update({
+ "C02": dict(
+  text="Deductive proof of two agreements between the building path (ProposeBlock/filterTxs) and the validating path "
+       "(validateBlock/processTxs): (1) the same gas-limit rule - inductive loop invariants: the builder starts a transaction only while the gas "
+       "used so far is within the limit, and the validator's flag means exactly 'the limit has been crossed', so its refusal is taken exactly for a "
+       "transaction after the crossing one (after Upgrade10; before it both keep the sum within the limit); MaxBlockSize is exact; (2) the same "
+       "order of steps - on both paths the reward context is computed on the check state before the block's transactions run on that same state, "
+       "and that context is the one block rewards are paid from (obligations at the call sites).",
+  note="Only these two agreements; the property as a whole (any mempool content, flags, roots, VM determinism) is relational over two runs and is "
+       "not decided. Assumed: preconditions of applyTxOnState at its call sites (established by ValidateTx, not under contract here), A-gas-range "
+       "(receipt gas below 2^62), the VM and transaction application do not modify the configuration (trusted frame of VM.Run).",
+  ref="DESIGN.md 4/C02, 9"),
+})
+
 PENDING = {
 }
 
